@@ -52,6 +52,12 @@ add("regexp_replace('a1b22', '\\\\d', 'X')", "aXbXX", "regexp_replace")
 add("regexp_replace('a1b22', '\\\\d+')", "ab", "regexp_replace")
 add("regexp_replace(regexp_replace('a1b22', '\\\\d', 'X'), 'X', 'y')", "aybyy", "regexp_replace")
 add("regexp_replace('aaa', 'a', 'b')", "bbb", "regexp_replace")
+# the long forms (<position>, <occurrence>, <parameters>): the documented value, or rejected - never another value
+add("regexp_replace('aaa', 'a', 'b', 1, 2)", "aba", "regexp_replace-may-reject")
+add("regexp_replace('aaa', 'a', 'b', 2)", "abb", "regexp_replace-may-reject")
+add("regexp_replace('aaa', 'a', 'b', 1, 0)", "bbb", "regexp_replace-may-reject")
+add("regexp_replace('aaa', 'a', 'b', 1, 3)", "aab", "regexp_replace-may-reject")
+add("regexp_replace('aAa', 'a', 'b', 1, 0, 'i')", "bbb", "regexp_replace-may-reject")
 # SPLIT / TRIM
 add("split('a,b', ',')[1]::varchar", "b", "split")
 add("trim('  x  ')", "x", "trim")
@@ -95,6 +101,17 @@ for fn in ("sha2('abc')", "sha2('abc', 256)", "sha2_hex('abc')", "sha2_hex('abc'
 add("sha2_binary('abc')", hashlib.sha256(b"abc").digest(), "sha2")
 add("sha2('abc', 512)", hashlib.sha512(b"abc").hexdigest(), "sha2-unsupported-length")
 add("sha2('abc', 224)", hashlib.sha224(b"abc").hexdigest(), "sha2-unsupported-length")
+# optional-argument forms of the other functions: the documented value, or rejected
+add("to_date('29/02/2024', 'DD/MM/YYYY')", date(2024, 2, 29), "to_date-may-reject")
+add("to_timestamp(1700000000000, 3)", dt(2023, 11, 14, 22, 13, 20), "to_timestamp-may-reject")
+add("to_decimal('1,234.5', '9,999.9')", D("1235"), "to_decimal-may-reject")
+add("trim('xxhixx', 'x')", "hi", "trim")
+add("ltrim('  x  ') || '|'", "x  |", "trim")
+add("rtrim('  x  ') || '|'", "  x|", "trim")
+add("ltrim('xxhixx', 'x')", "hixx", "trim")
+add("datediff(week, '2020-01-01', '2020-01-15')", 2, "datediff")
+add("dateadd(minute, 90, '2020-01-01'::date)", dt(2020, 1, 1, 1, 30, 0), "dateadd")
+add("dateadd(month, -1, '2024-03-31'::date)", date(2024, 2, 29), "dateadd")
 # EQUAL_NULL
 add("equal_null(1, 1)", True, "equal_null")
 add("equal_null(null, null)", True, "equal_null")
@@ -173,7 +190,7 @@ def run(tier="quick", seed=0, repo="/repo"):
                 detail = f"{got!r} ({type(got).__name__})"
             except Exception as e:  # noqa: BLE001
                 # rejecting an unsupported form is allowed by the property; answering it wrongly is not
-                ok = tag.endswith("unsupported-length")
+                ok = tag.endswith(("unsupported-length", "-may-reject"))
                 detail = f"rejected: {type(e).__name__}: {str(e)[:100]}"
             t.case(f"fn:{tag}:{cname}:{sql}", (sql, cname), ok, function="fakesnow.transforms", case={"sql": full}, expected=repr(wv), actual=detail, sample_every=41)
     # DML and view contexts for a few
